@@ -507,6 +507,22 @@ def run_cross_rules(ctx):
         except Exception as exc:  # noqa
             if not is_validation_error(exc):
                 ctx.violation('C20:cross_rule_error_class:%s:%s' % (kind, type(exc).__name__), repr(exc)[:200], {'rule': kind})
+    # documented normalisations of one option by another
+    for kind, make, key, want in [
+            ('hermitian_is_complex', lambda: M.SquareMatrices(symmetry='hermitian'), 'complex', True),
+            ('antihermitian_is_complex', lambda: M.SquareMatrices(symmetry='antihermitian'), 'complex', True),
+            ('antihermitian_is_complex', lambda: M.SquareMatrices(symmetry='antihermitian', complex=False, dimension=3), 'complex', True),
+            ('symmetric_stays_real', lambda: M.SquareMatrices(symmetry='symmetric'), 'complex', False)]:
+        ctx.ev()
+        ctx.count('constructions')
+        ctx.count('normalisation_checks')
+        try:
+            obj = make()
+        except Exception as exc:  # noqa
+            ctx.violation('C20:legal_configuration_rejected:' + kind, repr(exc)[:200], {'rule': kind})
+            continue
+        if obj.config.get(key) is not want:
+            ctx.violation('C20:documented_normalisation:' + kind, 'config[%r] is %r, documented: %r' % (key, obj.config.get(key), want), {'rule': kind})
     # positive controls: the same constructions made legal
     for kind, make in [
             ('suppress_warnings', lambda: M.FormulaGrader(variables=['pi'], suppress_warnings=True)),
